@@ -42,7 +42,7 @@ func init() {
 		PropCheck: "prop_bad_ids",
 		Gen:       c15Gen,
 		Run:       c15Run,
-		Rule:      "op sequences on random.NewChacha20PRG (UintN at n in {1,2,3,2^k,2^k+-1,2^64-1} and random n, large-then-small n so that stale uintnBuffer bytes matter, Permutation/SubPermutation/Samples/Shuffle for all (n,m) with n<=8 and random (n,m), Samples with huge n, negative and inconsistent sizes, UintN(0); the same mixes on generator objects obtained from RestoreChacha20PRG(Store()) between the operations; raw Reads of 0..65 bytes between the samplers; sizes at narrowing boundaries: Permutation / Shuffle / Samples whose counter crosses 2^8, 2^16, 2^32 inside one call, negative sizes whose low 8 / 16 / 32 bits are a small valid size, sample sizes exceeding the population by a multiple of 2^8 / 2^16 / 2^32; every slice returned by Permutation / SubPermutation (up to its capacity) is overwritten by the harness and re-read at the end - a later call must not write into it - and an error must come with a nil slice); every case is run twice with the same seed and ends with a raw 8-byte Read; a case is non-trivial if it consumed tape bytes or exercised an error/panic; distinct by (seed, customizer, op list)",
+		Rule:      "op sequences on random.NewChacha20PRG (UintN at n in {1,2,3,2^k,2^k+-1,2^64-1} and random n, large-then-small n so that stale uintnBuffer bytes matter, Permutation/SubPermutation/Samples/Shuffle for all (n,m) with n<=8 and random (n,m), Samples with huge n, negative and inconsistent sizes, UintN(0); the same mixes on generator objects obtained from RestoreChacha20PRG(Store()) between the operations; raw Reads of 0..65 bytes between the samplers; sizes at narrowing boundaries: Permutation / Shuffle / Samples whose counter crosses 2^8, 2^16, 2^32 inside one call, negative sizes whose low 8 / 16 / 32 bits are a small valid size, sample sizes exceeding the population by a multiple of 2^8 / 2^16 / 2^32; every slice returned by Permutation / SubPermutation (up to its capacity) is overwritten by the harness and re-read at the end - a later call must not write into it - and an error must come with a nil slice); every case is run twice with the same seed and ends with a raw 8-byte Read; a case is non-trivial if it consumed tape bytes or exercised an error/panic; distinct by (seed, customizer, op list); the same mixes on generators restored at byte positions 2^32-64 .. 2^38-4096 with the tape from x/crypto's ChaCha20 at that counter; checkpoints kept un-copied while the original generator draws and stores again",
 		Shard:     16,
 	})
 }
